@@ -45,6 +45,8 @@ def apply_event(rig, ev):
         rig.server_msg(M.PotentialParents.Response([PotentialParent(n, f'10.9.0.{NID[n]}', 2234) for n in ev[1]]))
     elif k == 'PI':
         rig.peer_init(ev[1], ev[2], bool(ev[3]), hold=(len(ev) > 4 and ev[4] == 'hold'))
+    elif k == 'SET':         # settings sub-objects replaced as a whole (harness-only)
+        rig.replace_settings_objects()
     elif k == 'KH':          # closing this connection will take time (harness-only)
         rig.slow_close(ev[1], True)
     elif k == 'KR':          # ... and now completes
@@ -96,9 +98,9 @@ def _peers_in_order(rig):
     return [[rig.cid(p.connection), p.username, p.branch_level, p.branch_root] for p in rig.dist.distributed_peers]
 
 
-def run_impl(events):
+def run_impl(events, noisy=False):
     from checks.c13_rig import Rig
-    rig = Rig()
+    rig = Rig(noisy=noisy)
     try:
         obs = []
         closed = []
@@ -128,11 +130,11 @@ RATIOS = [0, 1, 5, 10, 50, 100]
 MINS = [0, 1, 2, 5]
 
 
-def gen_and_run(rng, n, style):
+def gen_and_run(rng, n, style, noisy=False):
     """Returns (events, obs).  Events are valid for the rig: only live, non-blocked connections
     speak; no server message while an earlier server-message handler is blocked."""
     from checks.c13_rig import Rig
-    rig = Rig()
+    rig = Rig(noisy=noisy)
     events, obs = [], []
     closed = []
     next_c = [1]
@@ -237,7 +239,9 @@ def gen_and_run(rng, n, style):
             r = rng.random()
             srv_ok = not server_busy[0]
             f10_state = st['parent'] is not None and st['parent'] in st['children']
-            if style in ('tree', 'treehold') and st['parent'] in live and rng.random() < 0.35:
+            if rng.random() < 0.03 and not rig.held:
+                do(['SET'])
+            elif style in ('tree', 'treehold') and st['parent'] in live and rng.random() < 0.35:
                 p = st['parent']
                 k = rng.random()
                 if k < 0.4:
@@ -330,6 +334,7 @@ def monitor(events, obs):
     told_srv = {'L': None, 'R': None, 'S': None}
     told = {}                 # conn -> [level, root]
     had_session = False
+    sess = False              # a session exists, according to the EVENTS (not to the implementation's own flag)
     f11_pending = False
     dirty = set()             # children that missed an announcement because no session existed
     slow_dirty = set()        # children whose _add_child was still suspended in its first write when the position changed
@@ -387,6 +392,9 @@ def monitor(events, obs):
                     told.setdefault(c, [None, None])[1] = m[1]
         if ev[0] == 'SI':
             had_session = True
+            sess = True
+        elif ev[0] == 'SD':
+            sess = False
         # --- tree invariants
         ch = o['children']
         regs = [p[0] for p in o['peers']]
@@ -444,7 +452,7 @@ def monitor(events, obs):
         elif srv_told_now:
             f11_pending = False
         # --- truthfulness (at quiescent points: nothing suspended)
-        if o['session'] and had_session and not o['held'] and not o.get('kheld'):
+        if sess and had_session and not o['held'] and not o.get('kheld'):
             want = (pos[0], pos[1], o['parent'] is None)
             got = (told_srv['L'], told_srv['R'], told_srv['S'])
             if got != want:
@@ -496,7 +504,7 @@ def ev_coq(ev):
         return f'OwnStats {ev[1]}%Z'
     if k == 'RD':
         return 'ResetDistributed'
-    if k in ('CR', 'PF', 'KH', 'KR'):
+    if k in ('CR', 'PF', 'KH', 'KR', 'SET'):
         return 'PotentialParents []'      # no-op of the model: nothing may change when a slow peer resumes
     if k == 'H':
         return 'Hold'
@@ -598,18 +606,18 @@ def gen_slowclose(rng):
     return evs
 
 
-def violations(events):
+def violations(events, noisy=False):
     try:
-        return monitor(events, run_impl(events))
+        return monitor(events, run_impl(events, noisy))
     except Exception as e:     # noqa
         return [('impl-exception', f'{type(e).__name__}: {e}', {})]
 
 
-def shrink_events(events, key):
+def shrink_events(events, key, noisy=False):
     def fails(evs):
         if not valid(evs):
             return False
-        return any(k == key for k, _, _ in violations(evs))
+        return any(k == key for k, _, _ in violations(evs, noisy))
     if not fails(events):
         return events
     return shrink_list(events, fails, max_steps=120)
@@ -654,13 +662,16 @@ def run(run: Run):
             run.add_finding(Finding(k, what, {'events': evs, 'detail': detail}, observed=detail.get('told'), expected=detail.get('position')))
 
     n_hist = 260 if run.tier == 'quick' else 2600
+    if not proved:
+        n_hist = int(n_hist * 2.5)      # broken tie (translator / fingerprint / proof): longer directed search for a failing input
     cases = []
     styles = ['mixed', 'tree', 'hold', 'treehold', 'children', 'reparent', 'tree', 'f10', 'slots', 'ppfail', 'relogin', 'session', 'plain', 'treehold', 'mixed', 'nologin']
     for i in range(n_hist):
         style = styles[i % len(styles)]
         n = run.rng.randrange(3, 12 if run.tier == 'quick' else 16)
         try:
-            events, obs = gen_and_run(run.rng, n, style)
+            noisy = (i % 3 == 2)
+            events, obs = gen_and_run(run.rng, n, style, noisy=noisy)
         except Exception as e:   # noqa
             run.add_broken('check-crashed:gen', f'{type(e).__name__}: {e}')
             continue
@@ -671,8 +682,8 @@ def run(run: Run):
             run.count('ev_' + e[0])
         cases.append((events, obs))
         for k, what, detail in monitor(events, obs):
-            small = shrink_events(events, k)
-            run.add_finding(Finding(k, what, {'events': small, 'detail': detail}, observed=detail.get('told'), expected=detail.get('position')))
+            small = shrink_events(events, k, noisy)
+            run.add_finding(Finding(k, what, {'events': small, 'noisy_listeners': noisy, 'detail': detail}, observed=detail.get('told'), expected=detail.get('position')))
 
     # L3 only (monitor, no model): a slow new child while the parent announces a new LEVEL.  The model has no notion of a
     # half-written _add_child with level != 0, so these histories are not part of the correspondence.
@@ -720,7 +731,7 @@ def run(run: Run):
 def replay(rep) -> int:
     w = rep['witness']
     events = w['events'] if isinstance(w, dict) else w
-    obs = run_impl(events)
+    obs = run_impl(events, noisy=bool(isinstance(w, dict) and w.get('noisy_listeners')))
     for e, o in zip(events, obs):
         print(e, '->', {k: o[k] for k in ('parent', 'children', 'peers', 'accept', 'max', 'srv', 'conn', 'closed')})
     v = monitor(events, obs)
